@@ -3,13 +3,14 @@
 (* Trace validation: recorded executions of the real dliswriter code are   *)
 (* replayed against the normative specification.  One behaviour of this    *)
 (* specification = one recorded trace (tid); one TLC step = one event, or, *)
-(* inside a write event, one visible record of the written file.           *)
+(* inside a write event, one visible record of the written file followed   *)
+(* by one step per clause family.                                          *)
 (*                                                                         *)
 (* Actions are total: a failed clause never disables a step, it adds the   *)
 (* clause name (prefixed by its property id) to `verdict`.  The final step *)
 (* prints one VERDICT line per trace.                                      *)
 (***************************************************************************)
-EXTENDS RP66Frame, Json, IOUtils, TLC, TLCExt
+EXTENDS DlisCanon, Json, IOUtils, TLC, TLCExt
 
 ASSUME TLCSet(1, JsonDeserialize(IOEnv.TRACE_FILE).traces)
 Traces == TLCGet(1)
@@ -17,14 +18,20 @@ Traces == TLCGet(1)
 VARIABLES
   tid,      \* which trace of the batch
   ei,       \* index of the next event
-  ph,       \* "ev" (between events) | "vr" (reading the file of a write) | "end" | "fin" | "done"
+  ph,       \* "ev" | "vr" (reading a file) | "L1".."L4" (logical clauses of a write) | "done"
   rd,       \* reader state (RP66Frame)
   nrec,     \* logical records closed so far in the current file
   bnd,      \* positions (file lengths) that are visible-record boundaries of the current file
+  dec,      \* decoded logical records of the current file (high-level writes)
+  cfil, clf, cobj, cnf,   \* Canon (see DlisCanon)
+  rej,      \* fids for which an add_* call was rejected
+  hcm,      \* model of the compatibility flag: [flag, stack]
+  seen,     \* successful writes so far: [key, ei, opts]
   verdict,  \* set of << clause, event index >>
   cnt       \* counters (coverage evidence)
 
-vars == << tid, ei, ph, rd, nrec, bnd, verdict, cnt >>
+vars == << tid, ei, ph, rd, nrec, bnd, dec, cfil, clf, cobj, cnf, rej, hcm, seen, verdict, cnt >>
+canonVars == << cfil, clf, cobj, cnf, rej >>
 
 T == Traces[tid]
 E == T.events[ei]
@@ -33,36 +40,164 @@ NEvents == Len(T.events)
 Tag(cs, i) == { << c, i >> : c \in cs }
 
 CntZero == [events |-> 0, files |-> 0, vrs |-> 0, segs |-> 0, pads |-> 0, multi |-> 0, recs |-> 0, raised |-> 0,
-            flushes |-> 0]
+            flushes |-> 0, eflrs |-> 0, objs |-> 0, attrs |-> 0, fdata |-> 0, nofmt |-> 0, refs |-> 0,
+            cmp |-> 0, enc |-> 0, rejected |-> 0, idx |-> 0, hcev |-> 0, frames |-> 0]
 
 Init ==
   /\ tid \in 1..Len(Traces)
-  /\ ei = 1 /\ ph = "ev" /\ rd = ReaderInit /\ nrec = 0 /\ bnd = {} /\ verdict = {} /\ cnt = CntZero
+  /\ ei = 1 /\ ph = "ev" /\ rd = ReaderInit /\ nrec = 0 /\ bnd = {} /\ dec = << >>
+  /\ cfil = << >> /\ clf = << >> /\ cobj = << >> /\ cnf = << >> /\ rej = {}
+  /\ hcm = [flag |-> FALSE, stack |-> << >>]
+  /\ seen = << >> /\ verdict = {} /\ cnt = CntZero
 
-(* ----------------------- low-level write (DLISWriter driven directly) ---- *)
+IsWriteOp == E.op \in {"lowwrite", "write"}
+HighLevel == E.op = "write"
+
+(* C17: the observed flag after the event must be the modelled one          *)
+FlagClause(flag) == IF E.hc = flag THEN {} ELSE {"C17.FlagDiscipline"}
+
+(* ----------------------- API events that build Canon --------------------- *)
+NewFile ==
+  /\ ph = "ev" /\ ei <= NEvents /\ E.op = "new_file"
+  /\ cfil' = IF E.outcome = "ok" THEN Append(cfil, [fid |-> E.fid, vrl |-> E.vrl, seq |-> E.seq, setid |-> E.setid,
+                                                     allhc |-> hcm.flag, proc |-> E.proc]) ELSE cfil
+  /\ verdict' = verdict \cup Tag(FlagClause(hcm.flag), ei)
+  /\ cnt' = [cnt EXCEPT !.events = @ + 1]
+  /\ ei' = ei + 1
+  /\ UNCHANGED << tid, ph, rd, nrec, bnd, dec, clf, cobj, cnf, rej, hcm, seen >>
+
+NoteHc(f, fid) == [i \in DOMAIN f |-> IF f[i].fid = fid THEN [f[i] EXCEPT !.allhc = @ /\ hcm.flag] ELSE f[i]]
+
+AddLf ==
+  /\ ph = "ev" /\ ei <= NEvents /\ E.op = "add_lf"
+  /\ clf' = IF E.outcome = "ok" THEN Append(clf, [lf |-> E.lf, fid |-> E.fid, fh_id |-> E.fh_id, fh_seq_dec |-> E.fh_seq_dec]) ELSE clf
+  /\ cfil' = NoteHc(cfil, E.fid)
+  /\ verdict' = verdict \cup Tag(FlagClause(hcm.flag), ei)
+  /\ cnt' = [cnt EXCEPT !.events = @ + 1]
+  /\ ei' = ei + 1
+  /\ UNCHANGED << tid, ph, rd, nrec, bnd, dec, cobj, cnf, rej, hcm, seen >>
+
+AddObject ==
+  /\ ph = "ev" /\ ei <= NEvents /\ E.op = "add"
+  /\ IF E.outcome = "ok"
+     THEN /\ cobj' = Append(cobj, [oid |-> E.oid, fid |-> E.fid, lf |-> E.lf, cls |-> E.cls, has_setname |-> E.has_setname,
+                                    setname |-> E.setname, name |-> E.name, origin |-> E.origin, attrs |-> E.attrs])
+          /\ rej' = rej
+     ELSE /\ cobj' = cobj /\ rej' = rej \cup {E.fid}
+  /\ cfil' = NoteHc(cfil, E.fid)
+  /\ verdict' = verdict \cup Tag(FlagClause(hcm.flag), ei)
+  /\ cnt' = [cnt EXCEPT !.events = @ + 1, !.rejected = @ + (IF E.outcome = "ok" THEN 0 ELSE 1)]
+  /\ ei' = ei + 1
+  /\ UNCHANGED << tid, ph, rd, nrec, bnd, dec, clf, cnf, hcm, seen >>
+
+SetAttrIn(c, e) ==
+  IF e.part = "origin_reference" THEN [c EXCEPT !.origin = e.origin]
+  ELSE LET S == { i \in DOMAIN c.attrs : c.attrs[i].label = e.label } IN
+    IF S = {}
+    THEN [c EXCEPT !.attrs = Append(@, IF e.part = "value"
+             THEN [label |-> e.label, has_val |-> TRUE, val |-> e.val, has_units |-> FALSE, units |-> << >>, judge |-> e.judge]
+             ELSE [label |-> e.label, has_val |-> FALSE, val |-> << >>, has_units |-> TRUE, units |-> e.units, judge |-> TRUE])]
+    ELSE LET i == CHOOSE x \in S : TRUE IN
+      IF e.part = "value" THEN [c EXCEPT !.attrs[i].has_val = TRUE, !.attrs[i].val = e.val, !.attrs[i].judge = e.judge]
+      ELSE [c EXCEPT !.attrs[i].has_units = TRUE, !.attrs[i].units = e.units]
+
+SetAttr ==
+  /\ ph = "ev" /\ ei <= NEvents /\ E.op = "set"
+  /\ cobj' = IF E.outcome = "ok" THEN [i \in DOMAIN cobj |-> IF cobj[i].oid = E.oid THEN SetAttrIn(cobj[i], E) ELSE cobj[i]] ELSE cobj
+  /\ verdict' = verdict \cup Tag(FlagClause(hcm.flag), ei)
+  /\ cnt' = [cnt EXCEPT !.events = @ + 1]
+  /\ ei' = ei + 1
+  /\ UNCHANGED << tid, ph, rd, nrec, bnd, dec, cfil, clf, cnf, rej, hcm, seen >>
+
+NofmtData ==
+  /\ ph = "ev" /\ ei <= NEvents /\ E.op = "nofmt_data"
+  /\ cnf' = IF E.outcome = "ok" THEN Append(cnf, [lf |-> E.lf, oid |-> E.oid, payload |-> E.payload]) ELSE cnf
+  /\ verdict' = verdict \cup Tag(FlagClause(hcm.flag), ei)
+  /\ cnt' = [cnt EXCEPT !.events = @ + 1]
+  /\ ei' = ei + 1
+  /\ UNCHANGED << tid, ph, rd, nrec, bnd, dec, cfil, clf, cobj, rej, hcm, seen >>
+
+(* C17: the context manager: enter saves and sets, leaving restores (also by exception) *)
+HcEvent ==
+  /\ ph = "ev" /\ ei <= NEvents /\ E.op \in {"hc_enter", "hc_exit", "hc_exit_exc"}
+  /\ LET m == IF E.op = "hc_enter" THEN [flag |-> TRUE, stack |-> Append(hcm.stack, hcm.flag)]
+              ELSE IF hcm.stack = << >> THEN hcm
+              ELSE [flag |-> hcm.stack[Len(hcm.stack)], stack |-> SubSeq(hcm.stack, 1, Len(hcm.stack) - 1)]
+     IN /\ hcm' = m
+        /\ verdict' = verdict \cup Tag(IF E.hc = m.flag THEN {} ELSE {"C17.FlagDiscipline"}, ei)
+  /\ cnt' = [cnt EXCEPT !.events = @ + 1, !.hcev = @ + 1]
+  /\ ei' = ei + 1
+  /\ UNCHANGED << tid, ph, rd, nrec, bnd, dec, cfil, clf, cobj, cnf, rej, seen >>
+
+(* ----------------------- C06: primitive encodings ------------------------ *)
+EncodeClauses(e) ==
+  LET c == e.code   v == e.val IN
+  CASE v.k = "int" /\ c \in IntCodes \cup {STATUS} ->
+         IF IntRepresentable(c, v.v)
+         THEN (IF e.outcome # "ok" THEN {"C06.MustAccept"} ELSE IF e.bytes = EncInt(c, v.v) THEN {} ELSE {"C06.EncodeBytes"})
+         ELSE (IF e.outcome = "ok" THEN {"C06.MustReject"} ELSE {})
+    [] v.k = "bits" /\ c \in {FSINGL, FDOUBL} ->
+         IF e.outcome # "ok" THEN {"C06.MustAccept"} ELSE IF e.bytes = v.b THEN {} ELSE {"C06.EncodeBytes"}
+    [] v.k = "str" /\ c \in {IDENT, UNITS} ->
+         IF IdentRepresentable(v.s)
+         THEN (IF e.outcome # "ok" THEN {"C06.MustAccept"} ELSE IF e.bytes = EncIdent(v.s) THEN {} ELSE {"C06.EncodeBytes"})
+         ELSE (IF e.outcome = "ok" THEN {"C06.MustReject"} ELSE {})
+    [] v.k = "str" /\ c = ASCII ->
+         IF AsciiRepresentable(v.s)
+         THEN (IF e.outcome # "ok" THEN {"C06.MustAccept"} ELSE IF e.bytes = EncAscii(v.s) THEN {} ELSE {"C06.EncodeBytes"})
+         ELSE (IF e.outcome = "ok" THEN {"C06.MustReject"} ELSE {})
+    [] v.k = "dt" /\ c = DTIME ->
+         IF DtimeRepresentable(v)
+         THEN (IF e.outcome # "ok" THEN {"C06.MustAccept"} ELSE IF e.bytes \in EncDtimeSet(v) THEN {} ELSE {"C06.EncodeBytes"})
+         ELSE (IF e.outcome = "ok" THEN {"C06.MustReject"} ELSE {})
+    [] v.k = "obname" /\ c = OBNAME ->
+         IF ObnameRepresentable(v)
+         THEN (IF e.outcome # "ok" THEN {"C06.MustAccept"} ELSE IF e.bytes = EncObname(v) THEN {} ELSE {"C06.EncodeBytes"})
+         ELSE (IF e.outcome = "ok" THEN {"C06.MustReject"} ELSE {})
+    [] v.k = "obname" /\ c = OBJREF ->
+         IF ObjrefRepresentable(v)
+         THEN (IF e.outcome # "ok" THEN {"C06.MustAccept"} ELSE IF e.bytes = EncObjref(v) THEN {} ELSE {"C06.EncodeBytes"})
+         ELSE (IF e.outcome = "ok" THEN {"C06.MustReject"} ELSE {})
+    [] OTHER -> {}     \* argument types the property does not constrain
+
+Encode ==
+  /\ ph = "ev" /\ ei <= NEvents /\ E.op = "encode"
+  /\ verdict' = verdict \cup Tag(EncodeClauses(E), ei)
+  /\ cnt' = [cnt EXCEPT !.events = @ + 1, !.enc = @ + 1]
+  /\ ei' = ei + 1
+  /\ UNCHANGED << tid, ph, rd, nrec, bnd, dec, cfil, clf, cobj, cnf, rej, hcm, seen >>
+
+(* ----------------------- writes ------------------------------------------ *)
 LowValid(e) == e.vrl % 2 = 0 /\ e.vrl >= 20 /\ e.vrl <= 16384 /\ (e.out_chunk = 0 \/ e.out_chunk >= e.vrl)
                /\ \A i \in DOMAIN e.recs : e.recs[i].type \in 0..255
 
-FileCfg(e) == [seq |-> e.seq, vrl |-> e.vrl, setid |-> e.setid]
+FileOf(fid) == LET S == { i \in DOMAIN cfil : cfil[i].fid = fid } IN cfil[CHOOSE i \in S : TRUE]
+FileCfg(e) == IF e.op = "lowwrite" THEN [seq |-> e.seq, vrl |-> e.vrl, setid |-> e.setid]
+              ELSE LET f == FileOf(e.fid) IN [seq |-> f.seq, vrl |-> f.vrl, setid |-> f.setid]
 
-BeginLowWrite ==
-  /\ ph = "ev" /\ ei <= NEvents /\ E.op = "lowwrite"
+BeginWrite ==
+  /\ ph = "ev" /\ ei <= NEvents /\ IsWriteOp
   /\ cnt' = [cnt EXCEPT !.events = @ + 1, !.raised = @ + (IF E.outcome = "raised" THEN 1 ELSE 0),
                         !.files = @ + (IF E.outcome = "ok" THEN 1 ELSE 0)]
   /\ IF E.outcome = "raised"
-     THEN /\ verdict' = verdict \cup Tag(IF LowValid(E) THEN {"C15.Writable"} ELSE {}, ei)
-          /\ ei' = ei + 1 /\ UNCHANGED << ph, rd, nrec, bnd >>
-     ELSE /\ verdict' = verdict \cup Tag(SulClauses(E.file.bytes, FileCfg(E)), ei)
-          /\ ph' = "vr" /\ rd' = ReaderInit /\ nrec' = 0 /\ bnd' = {80} /\ UNCHANGED ei
-  /\ UNCHANGED tid
+     THEN /\ verdict' = verdict \cup Tag(
+                 (IF E.op = "lowwrite" THEN (IF LowValid(E) THEN {"C15.Writable"} ELSE {})
+                  ELSE (IF E.claim.valid THEN {"C15.Writable"} ELSE {})
+                  \cup FlagClause(hcm.flag)), ei)
+          /\ ei' = ei + 1 /\ UNCHANGED << ph, rd, nrec, bnd, dec >>
+     ELSE /\ verdict' = verdict \cup Tag(SulClauses(E.file.bytes, FileCfg(E))
+                 \cup (IF HighLevel THEN FlagClause(hcm.flag) ELSE {})
+                 \cup (IF HighLevel /\ E.claim.mustraise # "" THEN {"C12.MustRaise"} ELSE {})
+                 \cup (IF HighLevel /\ E.claim.hc_breach # "" /\ hcm.flag /\ FileOf(E.fid).allhc THEN {"C17.BreachWritten"} ELSE {}), ei)
+          /\ ph' = "vr" /\ rd' = ReaderInit /\ nrec' = 0 /\ bnd' = {80} /\ dec' = << >> /\ UNCHANGED ei
+  /\ UNCHANGED << tid, cfil, clf, cobj, cnf, rej, hcm, seen >>
 
-(* the records the reader must find: what was handed to the segmenter       *)
 (* (a record with an empty body denotes "no record": the writer emits nothing for an empty set)  *)
 NonEmpty(recs) == SelectSeq(recs, LAMBDA x : Len(x.body) > 0)
 TapRecs(e) == NonEmpty(e.file.tap)
 Given(e) == IF e.op = "lowwrite" THEN NonEmpty(e.recs) ELSE TapRecs(e)
 
-(* one visible record; closed logical records are compared at once (C02)    *)
+(* one visible record; closed logical records are compared at once (C02) and decoded (C04) *)
 ReadVR ==
   /\ ph = "vr" /\ ~ReaderDone(E.file.bytes, rd)
   /\ LET B    == E.file.bytes
@@ -76,11 +211,14 @@ ReadVR ==
         \cup (IF i <= Len(tap) /\ rec.type # tap[i].type THEN {"C02.RecordType"} ELSE {})
         \cup (IF i <= Len(giv) /\ (rec.body # giv[i].body \/ rec.eflr # giv[i].eflr \/ rec.type # giv[i].type)
               THEN {"C02.RecordOrderBody"} ELSE {})
-     IN /\ rd' = [st EXCEPT !.bad = {}]
+         nd == IF HighLevel THEN [k \in 1..Len(st.out) |-> DecodeRecord(st.out[k])] ELSE << >>
+     IN /\ rd' = [st EXCEPT !.bad = {}, !.out = << >>]
         /\ nrec' = nrec + Len(st.out)
         /\ bnd' = IF st.stop THEN bnd ELSE bnd \cup {st.pos - 1}
-        /\ verdict' = verdict \cup Tag(st.bad \cup UNION { chk(k) : k \in 1..Len(st.out) }, ei)
-  /\ UNCHANGED << tid, ei, ph, cnt >>
+        /\ dec' = dec \o nd
+        /\ verdict' = verdict \cup Tag(st.bad \cup UNION { chk(k) : k \in 1..Len(st.out) }
+                                       \cup UNION { nd[k].bad : k \in DOMAIN nd }, ei)
+  /\ UNCHANGED << tid, ei, ph, cfil, clf, cobj, cnf, rej, hcm, seen, cnt >>
 
 (* end of file: counts, totals, flush observations (C10)                    *)
 EndFile ==
@@ -103,23 +241,100 @@ EndFile ==
      IN /\ verdict' = verdict \cup Tag(bad, ei)
         /\ cnt' = [cnt EXCEPT !.vrs = @ + rd.nvr, !.segs = @ + rd.nseg, !.pads = @ + rd.npad,
                               !.multi = @ + rd.nmulti, !.recs = @ + nrec, !.flushes = @ + Len(fl)]
-  /\ ei' = ei + 1 /\ ph' = "ev"
-  /\ UNCHANGED << tid, rd, nrec, bnd >>
+  /\ IF HighLevel THEN ph' = "L1" /\ UNCHANGED ei ELSE ph' = "ev" /\ ei' = ei + 1
+  /\ UNCHANGED << tid, rd, nrec, bnd, dec, cfil, clf, cobj, cnf, rej, hcm, seen >>
+
+(* ---- logical clauses of a high-level write, one step per family --------- *)
+MyLfs  == LfsOf(clf, E.fid)
+MyObjs == SelectSeq(cobj, LAMBDA c : c.fid = E.fid)
+Rgs    == LfRanges(dec)
+
+CheckStructure ==        \* C07 identity / references, C09 order (file alone)
+  /\ ph = "L1"
+  /\ verdict' = verdict \cup Tag(IdentityClauses(dec) \cup OrderClauses(dec), ei)
+  /\ cnt' = [cnt EXCEPT !.eflrs = @ + Len(SelectSeq(dec, LAMBDA r : r.k = "E")),
+                        !.fdata = @ + Len(SelectSeq(dec, LAMBDA r : r.k = "I" /\ r.type = 0)),
+                        !.nofmt = @ + Len(SelectSeq(dec, LAMBDA r : r.k = "I" /\ r.type = 1))]
+  /\ ph' = "L2"
+  /\ UNCHANGED << tid, ei, rd, nrec, bnd, dec, cfil, clf, cobj, cnf, rej, hcm, seen >>
+
+CheckObjects ==          \* C05 metadata, C09 headers, C18 / C20 inventories
+  /\ ph = "L2"
+  /\ LET rgs == Rgs  lfs == MyLfs  objs == MyObjs  anyRej == E.fid \in rej IN
+     verdict' = verdict \cup Tag(
+          HeaderClauses(dec, rgs, lfs)
+     \cup UNION { ObjectClauses(dec, rgs, lfs, cobj, objs[i], anyRej) : i \in DOMAIN objs }
+     \cup InventoryClauses(dec, rgs, lfs, cobj, anyRej), ei)
+  /\ cnt' = [cnt EXCEPT !.objs = @ + Len(MyObjs)]
+  /\ ph' = "L3"
+  /\ UNCHANGED << tid, ei, rd, nrec, bnd, dec, cfil, clf, cobj, cnf, rej, hcm, seen >>
+
+CheckData ==             \* C03 / C08 / C11 / C13 frames, C16 no-format
+  /\ ph = "L3"
+  /\ LET rgs == Rgs  lfs == MyLfs
+         multi == Len(lfs) > 1 \/ Len(E.frames) > 1 IN
+     verdict' = verdict \cup Tag(
+          UNION { FrameClauses(dec, rgs, lfs, cobj, E.frames[i], multi) : i \in DOMAIN E.frames }
+     \cup NofmtClauses(dec, rgs, lfs, cobj, cnf), ei)
+  /\ cnt' = [cnt EXCEPT !.frames = @ + Len(E.frames),
+                        !.idx = @ + Len(SelectSeq(E.frames, LAMBDA f : f.has_rows /\ f.index.ok))]
+  /\ ph' = "L4"
+  /\ UNCHANGED << tid, ei, rd, nrec, bnd, dec, cfil, clf, cobj, cnf, rej, hcm, seen >>
+
+(* the current specification of file fid, free of the numbering the harness happens to use *)
+ObjPos(objs, oid) == LET S == { i \in DOMAIN objs : objs[i].oid = oid } IN IF S = {} THEN 0 ELSE CHOOSE i \in S : TRUE
+LfPos(lfs, lf) == LET S == { i \in DOMAIN lfs : lfs[i].lf = lf } IN IF S = {} THEN 0 ELSE CHOOSE i \in S : TRUE
+NormVal(objs, v) == IF v.k = "ref" THEN [k |-> "ref", pos |-> ObjPos(objs, v.oid)] ELSE v
+WriteKey(e) ==
+  LET f == FileOf(e.fid)  lfs == LfsOf(clf, e.fid)  objs == SelectSeq(cobj, LAMBDA c : c.fid = e.fid) IN
+  [sul |-> [seq |-> f.seq, vrl |-> f.vrl, setid |-> f.setid],
+   lfs |-> [i \in DOMAIN lfs |-> [id |-> lfs[i].fh_id, seq |-> lfs[i].fh_seq_dec]],
+   objs |-> [i \in DOMAIN objs |->
+              [lf |-> LfPos(lfs, objs[i].lf), cls |-> objs[i].cls, hs |-> objs[i].has_setname, sn |-> objs[i].setname,
+               name |-> objs[i].name, origin |-> objs[i].origin,
+               attrs |-> [a \in DOMAIN objs[i].attrs |->
+                           [label |-> objs[i].attrs[a].label, hv |-> objs[i].attrs[a].has_val,
+                            val |-> [x \in DOMAIN objs[i].attrs[a].val |-> NormVal(objs, objs[i].attrs[a].val[x])],
+                            hu |-> objs[i].attrs[a].has_units, units |-> objs[i].attrs[a].units]]]],
+   nf |-> LET mine == SelectSeq(cnf, LAMBDA x : LfPos(lfs, x.lf) # 0) IN
+            [i \in DOMAIN mine |-> [lf |-> LfPos(lfs, mine[i].lf), pos |-> ObjPos(objs, mine[i].oid), payload |-> mine[i].payload]],
+   frames |-> [i \in DOMAIN e.frames |-> [pos |-> ObjPos(objs, e.frames[i].oid), hr |-> e.frames[i].has_rows, rows |-> e.frames[i].rows]]]
+
+CheckHistory ==          \* C10 / C11 / C14 same specification => same bytes; C19 caller data
+  /\ ph = "L4"
+  /\ LET key == WriteKey(E)
+         same == { i \in DOMAIN seen : seen[i].key = key }
+         diff(i) == LET o == T.events[seen[i].ei] IN
+                      IF o.file.bytes = E.file.bytes THEN {}
+                      ELSE IF o.opts.route # E.opts.route THEN {"C11.SourceEquivalent"}
+                      ELSE IF o.opts.in_chunk # E.opts.in_chunk \/ o.opts.out_chunk # E.opts.out_chunk THEN {"C10.ChunkInvariant"}
+                      ELSE {"C14.HistoryIndependent"}
+         caller == IF E.caller.before = E.caller.after /\ E.caller.keys_same THEN {} ELSE {"C19.CallerDataUnchanged"}
+     IN /\ verdict' = verdict \cup Tag(UNION { diff(i) : i \in same } \cup caller, ei)
+        /\ seen' = Append(seen, [key |-> key, ei |-> ei])
+        /\ cnt' = [cnt EXCEPT !.cmp = @ + Cardinality(same)]
+  /\ ph' = "ev" /\ ei' = ei + 1 /\ dec' = << >>
+  /\ UNCHANGED << tid, rd, nrec, bnd, cfil, clf, cobj, cnf, rej, hcm >>
+
+(* a write that raised: the caller's data must still be intact (C19)        *)
+\* (handled in BeginWrite for the flag; caller data below)
 
 (* events this specification has no clause for are skipped (counted)        *)
-KnownOps == {"lowwrite"}
+KnownOps == {"lowwrite", "write", "new_file", "add_lf", "add", "set", "nofmt_data", "hc_enter", "hc_exit", "hc_exit_exc", "encode"}
 SkipEvent ==
   /\ ph = "ev" /\ ei <= NEvents /\ E.op \notin KnownOps
   /\ ei' = ei + 1 /\ cnt' = [cnt EXCEPT !.events = @ + 1]
-  /\ UNCHANGED << tid, ph, rd, nrec, bnd, verdict >>
+  /\ UNCHANGED << tid, ph, rd, nrec, bnd, dec, cfil, clf, cobj, cnf, rej, hcm, seen, verdict >>
 
 Finish ==
   /\ ph = "ev" /\ ei = NEvents + 1
   /\ PrintT(<< "VERDICT", T.id, verdict, cnt >>)
   /\ ph' = "done"
-  /\ UNCHANGED << tid, ei, rd, nrec, bnd, verdict, cnt >>
+  /\ UNCHANGED << tid, ei, rd, nrec, bnd, dec, cfil, clf, cobj, cnf, rej, hcm, seen, verdict, cnt >>
 
-Next == BeginLowWrite \/ ReadVR \/ EndFile \/ SkipEvent \/ Finish
+Next == NewFile \/ AddLf \/ AddObject \/ SetAttr \/ NofmtData \/ HcEvent \/ Encode
+        \/ BeginWrite \/ ReadVR \/ EndFile \/ CheckStructure \/ CheckObjects \/ CheckData \/ CheckHistory
+        \/ SkipEvent \/ Finish
 
 TraceSpec == Init /\ [][Next]_vars
 
